@@ -455,7 +455,7 @@ func TestVP_C12_kernel_prepared(t *testing.T) {
 	if kit.Replaying() {
 		return
 	}
-	c := kit.New(t, "C12", "deterministic sweep over the 512 nonces pre-committed by the unmodified cosiPrepareRandomsAndSendCommitments (bare node, Peer without neighbours, mock clock): every commitment is looked up under snapshot A (handed out), again under A (same object), under B (refused), and again after the next cosiPrepareRandomsAndSendCommitments call; non-trivial = every commitment; distinct by index")
+	c := kit.New(t, "C12", "deterministic sweep over the 512 nonces pre-committed by the unmodified cosiPrepareRandomsAndSendCommitments (bare node, Peer without neighbours, mock clock): every commitment is looked up under snapshot A (handed out), again under A (same object), under B (refused), and again after the next cosiPrepareRandomsAndSendCommitments call; non-trivial = every commitment; distinct by index (the nonce values come from the production random source; verdict and counts do not depend on them)")
 	defer clock.Reset()
 	vpC12SetClock(vpKMEpochDefault + 400*vpKMDay)
 	cache := vpKMNewCache()
